@@ -55,8 +55,9 @@ Infra = getattr(_main, "Infra", _runner.Infra)
 
 ID = "C04"
 LEAN_MODULES = ["PyYetiVerif.Props.C04", "PyYetiVerif.Audit.C04", "PyYetiVerif.Model.PyFloat",
-                "PyYetiVerif.Model.Op4Variants", "PyYetiVerif.Model.Op4Input", "PyYetiVerif.Model.Op4AsciiBits"]
-                # (the last four: imported by Drivers/C04.lean)
+                "PyYetiVerif.Model.Op4Variants", "PyYetiVerif.Model.Op4Input", "PyYetiVerif.Model.Op4AsciiBits",
+                "PyYetiVerif.Model.Op4Fixed", "PyYetiVerif.Props.C04Fix"]
+                # (PyFloat .. Op4Fixed: imported by Drivers/C04.lean; C04Fix: the `_fixed` theorems of the repair candidates)
 AUDIT_FILE = "PyYetiVerif/Audit/C04.lean"
 THEOREMS = [
     "PyYetiVerif.C04." + n
@@ -71,7 +72,9 @@ THEOREMS = [
         "write_domain recLen_spec file_roundtrip_binary_domain file_roundtrip_bytes_domain sparse_auto_rule storedIdx_spec "
         "coo_view_correct write_sparse_eq_write_dense denseMat_entry ensure_2d_shapes "
         "vector_input_is_row write_input_normalised plumb_spec write_replaces_file read_back_bits read_back_bits_subnormal "
-        "read_back_bits_finite read_back_needs_17 dir_matches_load_ascii sparse_views_ascii"
+        "read_back_bits_finite read_back_needs_17 dir_matches_load_ascii sparse_views_ascii "
+        # Props/C04Fix.lean: the repair candidates for F2 / F3 (patched writers, Model/Op4Fixed.lean)
+        "split_strings_spec nonbigmat_never_overflows_fixed nonbigmat_writes_fixed column_roundtrip_nonbigmat_fixed nonbigmat_unchanged_fixed fmtE_width_fixed width_fixed field_roundtrip_fixed ascii_value_half_unit_fixed ascii_values_roundtrip_fixed file_writes_fixed file_roundtrip_binary_fixed file_roundtrip_ascii_fixed decOfFx_zero ascii_entry_spec_fixed write_domain_fixed file_roundtrip_binary_domain_fixed file_roundtrip_bytes_domain_fixed"
     ).split()
 ]
 TRUSTED = [
@@ -134,7 +137,20 @@ PARTIAL = (
     "read_back_bits is per field ((pyFloat? (fmtE d b)).map decBits = some b for every finite double, digits 16..5000): "
     "the file-level statement follows entry by entry from file_roundtrip_ascii + ascii_entry_spec but is not restated; "
     "complex elements of the sparse read additionally pass through re + 1j*im (cooEntry); (5) dir / load on ASCII variants the writer never produces and files with carriage returns are outside "
-    "(C11); the ASCII writer's ValueError above 99 999 999 rows is not modelled"
+    "(C11); the ASCII writer's ValueError above 99 999 999 rows is not modelled; (6) REPAIR CANDIDATES for F2 / F3 "
+    "(corpus/c04_F2_candidate_fix.diff, corpus/c04_F3_candidate_fix.diff; /repo is not patched, the model of the check is "
+    "the present code): proved for the patched writers (Props/C04Fix.lean, Model/Op4Fixed.lean) are split_strings_spec, "
+    "nonbigmat_never_overflows_fixed, nonbigmat_writes_fixed, column_roundtrip_nonbigmat_fixed, nonbigmat_unchanged_fixed, "
+    "file_writes_fixed, file_roundtrip_binary_fixed, write_domain_fixed, file_roundtrip_binary_domain_fixed, "
+    "file_roundtrip_bytes_domain_fixed (F2: whole files at word level, on the true domain and at byte level - decodeBytes of "
+    "the patched bytes = canonFile -, no `stringsFit` hypothesis) and "
+    "fmtE_width_fixed, width_fixed, field_roundtrip_fixed, ascii_value_half_unit_fixed, ascii_values_roundtrip_fixed, "
+    "file_roundtrip_ascii_fixed, ascii_entry_spec_fixed, decOfFx_zero (F3: fields, value blocks and whole files, no `Fits` "
+    "hypothesis, every digits 1..73 - with digits = 1 the fallback prints one digit and no point, pyFloat_sciChars0; the "
+    "whole-file chain is the chain of file_roundtrip_ascii copied into the namespace Op4AFx - Lemmas/Op4FixedChain{A,B,C}.lean "
+    "- with the three facts about the formatter replaced); NOT done for the candidates: read_back_bits for the "
+    "patched writer (it holds for a `Wide` value from 17 digits on only), the sparse views and the sparse-input branch "
+    "of the patched writers (tied by the candidate checks, not proved)"
 )
 MANIFEST = {
     "level_text": "Proof (Lean 4, kernel-checked, standard axioms) about exact models of op4.write / op4.load / op4.dir: the "
@@ -173,6 +189,10 @@ MANIFEST = {
     "code (the sparse path refuses where the ndarray path refuses: write_sparse_eq_write_dense has no size hypothesis); "
     "the regression is guarded by the oracle: _oracle_f49_quick in every run (the inner binary writer on a file object "
     "that stops after the column header: no large memory), _oracle_f49 (the full 2 GiB write, then dir) in the thorough tier. "
+    "Repair candidates for F2 and F3 (not applied to /repo): corpus/c04_F{2,3}_candidate_fix.diff with `_fixed` theorems in "
+    "Props/C04Fix.lean about the patched writers of Model/Op4Fixed.lean; the patched text (scratch worktree) is tied to that "
+    "model by corpus/c04_F{2,3}_candidate_check.py (exact bytes / text / fields, evidence in corpus/c04_F{2,3}_candidate_"
+    "evidence.json), outside ./check. "
     "Trusted: Lean kernel; propext, Classical.choice, Quot.sound; the Python harness; CPython / numpy / scipy as listed.",
     "technique": "Lean 4 proof (induction over lines/strings/columns/matrices, omega on the packed header, bisection "
     "invariant for the %E exponent, rational arithmetic for the half-unit bound and for round-to-nearest of a decimal "
